@@ -70,6 +70,7 @@ int save_context (error_context_t * econ) {
   econ->save_sp = sp;           /* stack pointer */
   econ->save_csp = csp;         /* control stack pointer */
   save_object_limits (&econ->save_load_depth, &econ->save_restrict_destruct);
+  econ->save_last_verb = last_verb;
   econ->save_context = current_error_context;
 
   current_error_context = econ;
@@ -124,6 +125,9 @@ void restore_context (error_context_t * econ) {
   command_giver = econ->save_command_giver;
   /* error_handler() cleared the guards (throw_error() left them as they were): put back the values of the save point */
   restore_object_limits (econ->save_load_depth, econ->save_restrict_destruct);
+  /* user_parser() clears last_verb only when the verb function returns: an error left it pointing at the verb of the
+   * abandoned command (possibly into the dead stack frame of user_parser()) */
+  last_verb = econ->save_last_verb;
   DEBUG_CHECK (csp < econ->save_csp, "csp is below econ->csp before unwinding.\n");
   if (csp > econ->save_csp)
     {
